@@ -71,6 +71,8 @@ class FakeServiceInfo:
         r = MDNS.get(label, ([], []))
         if r == "e":
             raise OSError("mdns failed")
+        if r == "hang":
+            await asyncio.get_running_loop().create_future()   # never answered: only the caller giving up ends it
         self._r = r
         return bool(r[0] or r[1])
 
@@ -291,9 +293,10 @@ def run(ck: Check):
                 ck.violation("c20:" + why.split(" ")[0] + ":" + why.split(" ")[1], "C20 violated on the implementation: " + why,
                              {"hosts": hosts, "mdns": [str(m) for m in ms], "os": [str(o) for o in osx], "observed": impl[-1]})
         # --- manager ownership: all operation sequences of length <= 5 (quick: <= 4)
-        OPS = ["set:1", "set:2", "get", "close", "lookup:1", "lookup:0", "getfail"]
+        OPS = ["set:1", "set:2", "get", "close", "lookup:1", "lookup:0", "lookup:c", "getfail"]
         L = 5 if thorough else 4
         nseq = 0
+        n_abandon = [0]
         for sup in (None, 1):
             for n in range(0, L + 1):
                 for seq in itertools.product(OPS, repeat=n):
@@ -336,13 +339,50 @@ def run(ck: Check):
                                 MDNS.clear()
                                 MDNS["dev"] = ([], ["10.9.9.9"]) if op.endswith("1") else "e"
                                 had, ncl = mgr._aiozc, len(CLOSE_LOG)
-                                try:
-                                    fh.loop().run_until_complete(hr._async_zeroconf_get_service_info(
-                                        mgr, hr.SERVICE_TYPE, "dev." + hr.SERVICE_TYPE, "dev.local.", 1.0))
-                                except ResolveAPIError:
-                                    pass
+                                if op.endswith("c"):
+                                    # the lookup is abandoned while the mDNS request is in flight: the caller's task is
+                                    # cancelled / an enclosing timeout (asyncio.timeout, wait_for) fires, alternately
+                                    MDNS["dev"] = "hang"
+                                    n_abandon[0] += 1
+                                    lp = fh.loop()
+                                    coro = hr._async_zeroconf_get_service_info(mgr, hr.SERVICE_TYPE, "dev." + hr.SERVICE_TYPE, "dev.local.", 1.0)
+
+                                    async def abandoned(coro=coro, use_timeout=(n_abandon[0] % 2 == 0)):
+                                        if use_timeout:
+                                            try:
+                                                async with asyncio.timeout(0.001):
+                                                    await coro
+                                            except TimeoutError:
+                                                pass
+                                        else:
+                                            t = asyncio.ensure_future(coro)
+                                            await asyncio.sleep(0)
+                                            await asyncio.sleep(0)
+                                            t.cancel()
+                                            try:
+                                                await t
+                                            except asyncio.CancelledError:
+                                                pass
+                                    try:
+                                        lp.run_until_complete(abandoned())
+                                    except ResolveAPIError:
+                                        pass
+                                else:
+                                    try:
+                                        fh.loop().run_until_complete(hr._async_zeroconf_get_service_info(
+                                            mgr, hr.SERVICE_TYPE, "dev." + hr.SERVICE_TYPE, "dev.local.", 1.0))
+                                    except ResolveAPIError:
+                                        pass
                                 # a lookup closes only an instance it caused to be created itself: one the manager already
                                 # held (supplied, or made earlier by the library and still in use) survives it
+                                # ... and one it caused to be created is closed again whatever way the lookup ended (answered,
+                                # failed, abandoned in flight): nothing the library created stays open behind a lookup
+                                if had is None and (mgr._aiozc is not None or len(CLOSE_LOG) != ncl + 1):
+                                    ck.violation("c20:lookup-left-created-instance-open", "C20 violated on the implementation: an mDNS lookup "
+                                                 f"({'abandoned in flight' if op.endswith('c') else 'failing' if op.endswith('0') else 'answered'}) "
+                                                 "that found no zeroconf instance did not close the one the library created for it",
+                                                 {"constructed_with_instance": bool(sup), "ops": list(seq[: k + 1]), "close_log": list(CLOSE_LOG),
+                                                  "manager_still_holds_instance": mgr._aiozc is not None})
                                 if had is not None and (mgr._aiozc is not had or len(CLOSE_LOG) != ncl):
                                     ck.violation("c20:lookup-closed-instance-in-use", "C20 violated on the implementation: an mDNS lookup "
                                                  "closed / dropped a zeroconf instance the manager already held before the lookup",
@@ -373,12 +413,12 @@ def run(ck: Check):
         "distinct_nontrivial": len(cases) + nseq,
         "rule": "resolution case = (1-3 configured hosts from 19 literal/bare/.local/FQDN forms, mDNS outcome per name, OS outcome "
                 "per host); manager case = operation sequence (set same/different as AsyncZeroconf or plain Zeroconf, get, close, "
-                "lookup ok/failing) from a manager constructed with/without an instance",
+                "lookup ok/failing/abandoned in flight) from a manager constructed with/without an instance",
         "traces_validated_against_impl": len(lines),
         "samples": [{"hosts": c[0], "mdns": [str(x) for x in c[1]], "os": [str(x) for x in c[2]]} for c in cases[:2]] + [{"zc_ops": list(OPS)}],
         "distribution": dist, "manager_sequences": nseq, "exhaustive": False,
         "exhaustive_subspaces": {"single host: 19 forms x 5 mDNS outcomes x 3 OS outcomes": True,
-                                 f"manager: all sequences of length <= {L} over 6 operations x constructed with/without": True},
+                                 f"manager: all sequences of length <= {L} over 8 operations x constructed with/without": True},
     })
     ck.assumptions += ["real mDNS and the OS resolver are replaced by recording fakes; ipaddress is the real module"]
 
